@@ -18,7 +18,7 @@ from fractions import Fraction
 from harness import core
 from harness import mathfuncs_gen as G
 from harness import mathfuncs_oracle as O
-from harness.core import qlit, boollit, listlit, natlit
+from harness.core import boollit, listlit, natlit
 from translate import mathfuncs as tr_mathfuncs
 
 ID = 'C15'
@@ -138,10 +138,22 @@ Definition final_agrees (e : fentry) (c : xcase) : bool :=
       end
   end.
 
+Definition body_runs (e : fentry) (c : xcase) : bool :=
+  match fe_spec e with
+  | Some sp => match validate sp (map shape_of_val (x_args c)) with VCall => true | _ => false end
+  | None => Nat.eqb (x_nargs c) (List.length (x_args c))
+  end.
+
+Definition square_arg (c : xcase) : bool :=
+  match x_args c with [VArr [r; k] _] => Nat.eqb r k | _ => true end.
+
 Definition exact_agrees (e : fentry) (c : xcase) : bool :=
+  if negb (body_runs e c) then true else
+  match xfun_of (fe_target e) with XDet | XTrace => negb (square_arg c) | _ => false end ||
   match exact_target (fe_target e) (x_args c), x_raw c with
   | _, RSkip => true
   | None, _ => true
+  | Some (MVal _), RExc XOverflowError | Some (MSquared _), RExc XOverflowError => true   (* an intermediate overflowed *)
   | Some (MVal v), RVal v' =>
       match xfun_of (fe_target e), x_args c with
       | XDet, [VArr [r; k] data] => loose_close (row_scale data r k) v v'
@@ -167,6 +179,7 @@ Definition exact_agrees (e : fentry) (c : xcase) : bool :=
   end.
 
 Definition derived_agrees (e : fentry) (c : xcase) : bool :=
+  if negb (body_runs e c) then true else
   match fe_target e, x_args c, x_raw c with
   | TLocal n, [VNum _ z], RVal (VNum _ w) =>
       match derived1 (ExactPrims (x_pi c) (x_trace c)) n with Some f => gclose (f z) w | None => true end
@@ -224,6 +237,13 @@ PYEXC = {'ArgumentError': 'XArgumentError', 'ArgumentShapeError': 'XArgumentShap
 # ------------------------------------------------------------------------------------------------
 # Coq literals
 # ------------------------------------------------------------------------------------------------
+def qlit(x):
+    """exact rational literal in hexadecimal (doubles have huge decimal expansions; hex parses in linear time)"""
+    fr = Fraction(x)
+    n = '(-0x%x)%%Z' % -fr.numerator if fr.numerator < 0 else '0x%x%%Z' % fr.numerator
+    return '(Qmake %s 0x%x%%positive)' % (n, fr.denominator)
+
+
 def coq_string(s):
     assert re.match(r'^[A-Za-z0-9_ ]*$', s), s
     return '"%s"' % s
@@ -492,35 +512,75 @@ def arctan2_goal(x, y, w):
             '- PI - 1/1000000000 <= W <= PI + 1/1000000000' % (t, t)).replace('X', rlit(x)).replace('Y', rlit(y)).replace('W', rlit(w))
 
 
-def run_interval(goals, res, tag='c15_iv', shard=None):
-    """goals: list of (meta, proposition).  Every proposition is proved (or not) inside Coq; a failed one is a disagreement."""
-    if not goals:
-        return
-    shard = shard or max(20, (len(goals) + 15) // 16)
+def interval_files(goals, tag='c15_iv', shard=None):
+    shard = shard or min(80, max(20, (len(goals) + 15) // 16))      # small files: less memory per coqc with Interval loaded
     files = []
     for k in range(0, len(goals), shard):
         chunk = goals[k:k + shard]
         body = [IHEADER]
         for i, (_, prop) in enumerate(chunk):
             body.append('Goal True. first [ assert (%s) by c15; idtac "@@OK %d" | idtac "@@FAIL %d" ]; exact I. Qed.' % (prop, k + i, k + i))
-        files.append(('%s_%04d' % (tag, k // shard), '\n'.join(body) + '\n'))
-    out = core.run_case_files(files, timeout=1200)
-    seen_ok, seen_fail = set(), set()
-    for (name, rc, text), k in zip(out, range(0, len(goals), shard)):
-        oks = set(int(x) for x in re.findall(r'@@OK (\d+)', text))
-        fails = set(int(x) for x in re.findall(r'@@FAIL (\d+)', text))
-        n = min(shard, len(goals) - k)
-        if rc != 0 or len(oks | fails) != n:
-            res.corr_errors.append((name, text[-1500:]))
-        seen_ok |= oks
-        seen_fail |= fails
-    res.programs += len(seen_ok) + len(seen_fail)
-    for i in sorted(seen_fail):
-        meta = goals[i][0]
-        res.disagreements.append({'kind': 'interval', 'case': meta,
+        files.append(('%s_%04d' % (tag, k // shard), '\n'.join(body) + '\n', k, len(chunk)))
+    return files
+
+
+def agreement_files(tag, agree_fn, terms, shard, case_type=None):
+    """same file format as core.eval_agreement, but only built here so that every Coq job of the run goes out in one batch"""
+    files = []
+    for k in range(0, len(terms), shard):
+        chunk = terms[k:k + shard]
+        ty = (' : list (%s)' % case_type) if case_type else ''
+        text = (HEADER + AGREE_DEFS + '\nDefinition verif_cases%s :=\n  [ %s ].\n' % (ty, '\n  ; '.join(chunk)) +
+                'Fixpoint verif_failing {A} (f : A -> bool) (l : list A) (i : nat) : list nat :=\n'
+                '  match l with nil => nil | x :: r => if f x then verif_failing f r (S i) '
+                'else i :: verif_failing f r (S i) end.\n'
+                'Eval vm_compute in (verif_failing (%s) verif_cases 0).\n' % agree_fn)
+        files.append(('%s_%04d' % (tag, k // shard), text, k, len(chunk)))
+    return files
+
+
+def run_batch(jobs, goals, res):
+    """jobs: list of (tag, agree_fn, terms, shard, case_type, on_fail(i)).  One parallel coqc batch for everything."""
+    plan = []
+    for tag, fn, terms, shard, ty, on_fail in jobs:
+        for name, text, k, n in agreement_files(tag, fn, terms, shard, ty):
+            plan.append(('agree', name, text, k, n, on_fail))
+    for name, text, k, n in interval_files(goals):
+        plan.append(('interval', name, text, k, n, None))
+    # longest first, so that the pool drains evenly
+    plan.sort(key=lambda p: -len(p[2]))
+    out = core.run_case_files([(p[1], p[2]) for p in plan], timeout=1500)
+    # a coqc process that died without a Coq error message (killed under memory pressure on a shared machine) says nothing
+    # about the case: such files are re-run, one at a time, before anything is concluded from them
+    for attempt in range(2):
+        redo = [i for i, (_, rc, text) in enumerate(out) if rc != 0 and 'Error' not in text]
+        if not redo:
+            break
+        for i in redo:
+            out[i] = core.run_case_files([(plan[i][1], plan[i][2])], timeout=1500)[0]
+    ok_goals, failed_goals = set(), set()
+    for (kind, name, text, k, n, on_fail), (_, rc, log_text) in zip(plan, out):
+        if kind == 'agree':
+            idx = core.failing_indices(log_text) if rc == 0 else None
+            if idx is None:
+                res.corr_errors.append((name, log_text[-1500:]))
+                continue
+            res.programs += n
+            for i in idx:
+                on_fail(k + i)
+        else:
+            oks = set(int(x) for x in re.findall(r'@@OK (\d+)', log_text))
+            fails = set(int(x) for x in re.findall(r'@@FAIL (\d+)', log_text))
+            if rc != 0 or len(oks | fails) != n:
+                res.corr_errors.append((name, log_text[-1500:]))
+            ok_goals |= oks
+            failed_goals |= fails
+    res.programs += len(ok_goals) + len(failed_goals)
+    for i in sorted(failed_goals):
+        res.disagreements.append({'kind': 'interval', 'case': goals[i][0],
                                   'what': 'Interval cannot certify the implementation value against the regenerated definition'})
     res.distribution['interval_goals'] = len(goals)
-    res.distribution['interval_certified'] = len(seen_ok)
+    res.distribution['interval_certified'] = len(ok_goals)
 
 
 # ------------------------------------------------------------------------------------------------
@@ -634,7 +694,7 @@ def build_cases(ctx):
     rng = random.Random(1000003 * ctx['seed'] + 15)
     T = O.tables()
     thorough = ctx['tier'] == 'thorough' or ctx['escalate']
-    n_rand = 30 if thorough else 6
+    n_rand = 20 if thorough else 6
     names = {t: sorted(k for k in T[t] if k not in O.EXCLUDED) for t in ('formula', 'matrix')}
     scal = {t: [k for k in names[t] if k in O.SCALAR1 and not (k == 'abs' and t == 'matrix')] for t in names}
     cases = []
@@ -655,6 +715,19 @@ def build_cases(ctx):
                 args = [a] if f not in ('kronecker', 'max') else [a, ['r', 2.0]]
                 cases.append({'table': t, 'fname': f, 'args': args, 'stream': 'shape'})
     return cases
+
+
+def in_exact_stream(c, obs, index, thorough):
+    """which calls are also evaluated by the Coq model over Gaussian rationals.  Everything except the bulk of the
+    one-argument calls of the direct numpy entries (sin, exp, ...), about which that model only says `the wrapper lets the
+    call through` -- of those, every failing call (exception recasting) and a deterministic slice are kept."""
+    if c['stream'] != 'scalar':
+        return True
+    if obs['status'] != 'ret':
+        return True
+    if c['fname'] in SCALAR_LOCAL:
+        return thorough or index % 3 == 0
+    return index % (4 if thorough else 16) == 0
 
 
 def case_key(c):
@@ -694,6 +767,7 @@ def run(ctx):
                 'wrong argument counts 1..4 x wrong shapes (vector, matrix, tensor, one-element arrays); exact/rounded array entries for '
                 'the matrix functions; a case is non-trivial when the call reaches the function body or an error class is decided')
     cases = build_cases(ctx)
+    thorough = ctx['tier'] == 'thorough' or ctx['escalate']
     pi_q = qlit(math.pi)
     terms, metas, goals = [], [], []
     dist = {}
@@ -713,8 +787,9 @@ def run(ctx):
                                   'what': what, 'one_element_array': is_one_element_case(c),
                                   'observed': repr(obs.get('value', obs.get('exc')))[:200]})
         res.nontrivial.add(k)
-        terms.append(exact_case_term(c, obs, pi_q))
-        metas.append(c)
+        if in_exact_stream(c, obs, len(seen), thorough):
+            terms.append(exact_case_term(c, obs, pi_q))
+            metas.append(c)
         # Interval stream
         if obs['status'] == 'ret' and len(c['args']) == 1 and O.is_scalar(c['args'][0]) and c['fname'] in O.SCALAR1 \
                 and not (c['fname'] == 'abs' and c['table'] == 'matrix') and c['table'] == 'formula':
@@ -729,44 +804,35 @@ def run(ctx):
             if g is not None:
                 goals.append(({'table': c['table'], 'fname': 'arctan2', 'args': c['args'], 'value': repr(obs['value'])}, g))
     # quick tier: bound the number of Interval goals (deterministic thinning), the oracle still saw every case
-    if ctx['tier'] == 'quick' and not ctx['escalate'] and len(goals) > 1500:
-        step = len(goals) / 1500.0
-        goals = [goals[int(i * step)] for i in range(1500)]
+    cap = 2400 if thorough else 800
+    if len(goals) > cap:
+        step = len(goals) / float(cap)
+        goals = [goals[int(i * step)] for i in range(cap)]
+    # the doubles behind pi and e (what evaluator('pi'), evaluator('e') returned) are the nearest doubles
+    for name in ('pi', 'e'):
+        ob = O.run_impl('formula', None, [], formula=name)
+        if ob['status'] == 'ret' and O.is_number(ob['value']) and finite_num(ob['value']):
+            goals.append(({'constant': name, 'value': repr(ob['value'])},
+                          'Rabs (%s - %s) <= / 2 ^ 52' % ('PI' if name == 'pi' else 'exp 1', rlit(complex(ob['value']).real))))
     res.distribution.update(dist)
     res.distribution['cases'] = len(terms)
     if metas:
         for i in (0, len(metas) // 2, len(metas) - 1):
             res.samples.append({'case': {k: metas[i][k] for k in ('table', 'fname', 'args')}, 'coq_term': terms[i][:300]})
 
-    n, failing, errors = core.eval_agreement('c15_exact', HEADER + AGREE_DEFS, 'agree', terms, shard=max(60, (len(terms) + 15) // 16),
-                                             case_type='xcase')
-    res.programs += n
-    res.corr_errors += errors
-    for i in failing:
-        res.disagreements.append({'kind': 'exact', 'case': {k: metas[i][k] for k in ('table', 'fname', 'args')},
-                                  'what': 'model (wrapper / exact value / derived replay) and implementation differ'})
-
     rows, keyrows = table_terms(res)
-    n, failing, errors = core.eval_agreement('c15_table', HEADER + AGREE_DEFS, 'table_agree', rows, shard=400)
-    res.programs += n
-    res.corr_errors += errors
-    for i in failing:
-        res.disagreements.append({'kind': 'table', 'row': rows[i]})
-    n, failing, errors = core.eval_agreement('c15_keys', HEADER + AGREE_DEFS, 'keys_agree', keyrows, shard=10)
-    res.programs += n
-    res.corr_errors += errors
-    for i in failing:
-        res.disagreements.append({'kind': 'table-keys', 'row': keyrows[i][:200]})
     crow = run_constants(res)
-    n, failing, errors = core.eval_agreement('c15_const', HEADER + AGREE_DEFS, 'const_agree', crow, shard=10)
-    res.programs += n
-    res.corr_errors += errors
-    for i in failing:
-        res.disagreements.append({'kind': 'constant', 'row': crow[i]})
     if len(crow) != 4:
         res.disagreements.append({'kind': 'constant', 'what': 'a constant did not evaluate'})
 
-    run_interval(goals, res)
+    def fail_exact(i):
+        res.disagreements.append({'kind': 'exact', 'case': {k: metas[i][k] for k in ('table', 'fname', 'args')},
+                                  'what': 'model (wrapper / exact value / derived replay) and implementation differ'})
+    jobs = [('c15_exact', 'agree', terms, min(250, max(60, (len(terms) + 15) // 16)), 'xcase', fail_exact),
+            ('c15_table', 'table_agree', rows, 400, None, lambda i: res.disagreements.append({'kind': 'table', 'row': rows[i]})),
+            ('c15_keys', 'keys_agree', keyrows, 10, None, lambda i: res.disagreements.append({'kind': 'table-keys', 'row': keyrows[i][:200]})),
+            ('c15_const', 'const_agree', crow, 10, None, lambda i: res.disagreements.append({'kind': 'constant', 'row': crow[i]}))]
+    run_batch(jobs, goals, res)
     if goals:
         res.samples.append({'interval_goal': goals[len(goals) // 3][1][:400], 'case': goals[len(goals) // 3][0]})
     res.notes.append('boundary = scalar calls outside the band of the Interval stream (|z| > 30 or < 1e-6, |value| > 1e12, '
